@@ -1,0 +1,25 @@
+//go:build verif
+
+package deployment
+
+import (
+	"context"
+
+	appsv1 "k8s.io/api/apps/v1"
+	clientset "k8s.io/client-go/kubernetes"
+	appslisters "k8s.io/client-go/listers/apps/v1"
+	"k8s.io/client-go/tools/record"
+)
+
+// VerifSyncDeployment builds the controller for one Deployment exactly as controllerFactory.NewController does
+// (strategy taken from the annotation) and runs one syncDeployment (verification harness only; -tags verif).
+// It returns false when the factory declines the Deployment.
+func VerifSyncDeployment(ctx context.Context, client clientset.Interface, dLister appslisters.DeploymentLister,
+	rsLister appslisters.ReplicaSetLister, recorder record.EventRecorder, d *appsv1.Deployment) (bool, error) {
+	f := &controllerFactory{client: client, eventRecorder: recorder, dLister: dLister, rsLister: rsLister}
+	dc := f.NewController(d)
+	if dc == nil {
+		return false, nil
+	}
+	return true, dc.syncDeployment(ctx, d)
+}
